@@ -3,6 +3,7 @@ package loadbalancer
 import (
 	"bufio"
 	"context"
+	"errors"
 	"fmt"
 	"net"
 	"net/http"
@@ -20,6 +21,10 @@ import (
 	"github.com/0xReLogic/Helios/internal/utils"
 	"github.com/0xReLogic/Helios/internal/vhook"
 )
+
+// errBackendFailure tells the circuit breaker that a proxied request failed
+// (5xx or unreachable backend) after the response has already been written.
+var errBackendFailure = errors.New("backend request failed")
 
 // Strategy defines the interface for load balancing strategies
 type Strategy interface {
@@ -622,6 +627,11 @@ func (lb *LoadBalancer) ServeHTTP(w http.ResponseWriter, r *http.Request) {
 		err := lb.circuitBreaker.Execute(func() error {
 			return lb.handleRequest(w, r, startTime)
 		})
+		if err == errBackendFailure {
+			// Response and metrics were already handled by proxyRequest; the
+			// error only exists so that the breaker counts the failure.
+			return
+		}
 		if err != nil {
 			failureCount, successCount, requestCount := lb.circuitBreaker.Counts()
 			logger.Error().
@@ -644,7 +654,7 @@ func (lb *LoadBalancer) ServeHTTP(w http.ResponseWriter, r *http.Request) {
 		}
 	} else {
 		// Execute without circuit breaker
-		if err := lb.handleRequest(w, r, startTime); err != nil {
+		if err := lb.handleRequest(w, r, startTime); err != nil && err != errBackendFailure {
 			logger.Error().Err(err).Msg("request handling failed")
 		}
 	}
@@ -703,6 +713,9 @@ func (lb *LoadBalancer) proxyRequest(backend *Backend, w http.ResponseWriter, r 
 	// Record metrics and handle passive health checks
 	lb.recordRequestMetrics(backend, rw.statusCode, startTime, r)
 
+	if rw.statusCode >= 500 {
+		return errBackendFailure
+	}
 	return nil
 }
 
